@@ -7,7 +7,7 @@ s = open(p).read()
 table = subprocess.check_output([os.path.join(HERE, 'tools', 'seed_table.py')], universal_newlines=True)
 n = table.count('\n') - 2
 missed = table.count('missed, then caught')
-notdet = table.count('NOT DETECTED')
+notdet = sum(1 for line in table.splitlines() if line.startswith('| C') and line.split('|')[4].strip() == 'NOT DETECTED')
 begin, end = '<!-- seeded-table:begin -->', '<!-- seeded-table:end -->'
 block = '%s\n%d seeded changes; %d caught by the quick tier at the first run, %d missed at first and caught after the check was strengthened, %d still not detected.\n\n%s%s' % (
     begin, n, n - missed - notdet, missed, notdet, table, end)
